@@ -51,7 +51,7 @@ def main():
         own = n.split('-')[0]
         props = CLAIMED if allprops else ([own] if own in CLAIMED else [])
         jobs.append((n, props))
-    with concurrent.futures.ThreadPoolExecutor(8) as ex:
+    with concurrent.futures.ThreadPoolExecutor(int(os.environ.get('JOBS', '8'))) as ex:
         for name, out in ex.map(one, jobs):
             own = name.split('-')[0]
             cells = []
